@@ -290,6 +290,12 @@ def check(prop, tier, seed, replay=None):
             notes.setdefault(key, []).append((m, text))
     for k, v in sorted(notes.items()):
         log(f"NOTE x{len(v)} [{k}] {v[0][1][:600]}")
+        # a note is a disagreement that belongs to another property's check (or to nobody): keep its shortest history for inspection
+        m0 = min(v, key=lambda x: len(histories[x[0]["h"] - 1]["ops"]))[0]
+        nd = os.path.join(WORK, "notes")
+        os.makedirs(nd, exist_ok=True)
+        with open(os.path.join(nd, f"{prop}_{hashlib.sha1(k.encode()).hexdigest()[:10]}.json"), "w") as nf:
+            json.dump({"property": prop, "note": k, "text": v[0][1], "history": histories[m0["h"] - 1], "mismatch": m0}, nf, indent=1, sort_keys=True, default=str)
     for fid, (f, m, text) in known.items():
         print(f"KNOWN-FINDING: property={prop} {f['what']}")
     nviol = 0
